@@ -57,6 +57,7 @@ impl Group for C10Sim {
         vec![
             // F3: allowlist update with one bad entry
             c("al add g|al set m|al rm m|al add m|al set b"),
+            c("al add gg|al rm m|al add x|al rm xg|al add m|al set m"),
             // F9: refused counterparty revocation (revoking the latest signed commitment)
             c("scp 0 0|cpr 0 g|scp 0 1|cpr 0 g|cpr 1 g"),
             // F4: rejected block removal, then the correct one
